@@ -33,7 +33,7 @@ from pathlib import Path
 from harness.translate import c01_dispatch, c01_tables
 
 ID = "C01"
-LEVEL_TEXT = ("32 theorems (all closed under the global context) about a Gallina model of the static visitor, for ALL statement lists of an abstract "
+LEVEL_TEXT = ("33 theorems (all closed under the global context) about a Gallina model of the static visitor, for ALL statement lists of an abstract "
               "statement language (def/class/assign/annassign/__all__ +=/import/from-import/if/block/handler/docstring statement; any nesting, any "
               "duplication): (1) the stack-and-flag visitor machine (frame stack = Visitor.current, mutable type_guarded saved/restored by visit_if, "
               "events, Python errors) computes exactly a recursive level semantics in which the type-guard flag is an inherited attribute true only "
@@ -56,7 +56,7 @@ LEVEL_TEXT = ("32 theorems (all closed under the global context) about a Gallina
               "continuation / parenthesis lines, any nesting) slicing the rendered lines by a reported span returns exactly the item's text "
               "(function/class from the first decorator line, property-attribute from the def line, docstring = the string constant's lines), and "
               "every member's reported span is the span of an item defining that very name with that kind; Object.lines is that text and "
-              "Object.source its dedent, which removes nothing but a common margin of blanks. (6b) Decorator spellings are resolved inside the model, in the scope of that moment (member of the current object, enclosing "
+              "Object.source its dedent (textwrap.dedent modelled for blanks and tabs), which cuts off nothing but the longest common whitespace prefix. (6b) Decorator spellings are resolved inside the model, in the scope of that moment (member of the current object, enclosing "
               "class bodies skipped, module last): every statement of every list is resolved against exactly the frames the machine has reached there; "
               "(6c) extension containers with a history: any interleaving of Extensions.add and visits announces each visit completely, in order and "
               "once to every extension registered before it. (7) The visibility ladders regenerated "
@@ -73,11 +73,11 @@ LEVEL_NOTE = ("Trusted: Coq kernel, extraction, the two translators (harness/tra
               "(C03), overload buffer / setter-deleter objects (C02; their effect on membership and labels is in `step`), annotation forwarding. "
               "The layout model covers block-form sources (one statement per line, bodies on their own lines); source text <-> ast positions are "
               "CPython's. The 'documented decorator table' is a hand-written table (doc_labels) that the regenerated tables are proved equal to. "
-              "A difference confined to the members of __init__ function objects or to docstring forwarding shapes outside the direct checks is "
-              "reported as a broken tie, not with a failing input. History effects: a failure is only reported after it reproduced in a fresh "
+              "A difference confined to docstring forwarding shapes outside the direct checks is reported as a broken tie, not with a failing "
+              "input. The extension-history stream registers every recorder once (the theorem also covers repeated registration). History effects: a failure is only reported after it reproduced in a fresh "
               "interpreter, alone or after a minimised list of earlier modules.")
 MODEL = ("Model.C01_run", "run_C01_all")
-COQ_TARGETS = ["Proofs/C01_visitor.vo", "Proofs/C01_vis.vo", "Proofs/C01_content.vo", "Proofs/C01_raw.vo", "Proofs/C01_layout.vo", "Proofs/C01_resolve.vo", "Proofs/C01_ext.vo", "Model/C01_run.vo"]
+COQ_TARGETS = ["Proofs/C01_visitor.vo", "Proofs/C01_vis.vo", "Proofs/C01_content.vo", "Proofs/C01_raw.vo", "Proofs/C01_layout.vo", "Proofs/C01_dedent.vo", "Proofs/C01_resolve.vo", "Proofs/C01_ext.vo", "Model/C01_run.vo"]
 RULE = ("seeded random structural modules (nesting <=4; name pool of 11 (incl. _t__, z__) with forced duplicates; decorators from the label tables, overload, "
         "accessor, unknown, over one or several lines; docstrings in every legal position incl. attribute docstrings, after if/for/try bodies, also "
         "parenthesised over several lines, concatenated across lines or followed by a comment line; layout noise: blank / comment lines at any "
@@ -698,6 +698,11 @@ class Gen:
         elif r < 0.13:
             self.lines += ["", "    " * self.rng.randint(0, ind) + "# note", ""]
             self.features.add("gap")
+        elif r < 0.16:
+            # whitespace made of tabs (and blanks): comment lines and whitespace-only lines may be indented any way
+            self.lines.append(self.rng.choice(["\t# tab note", "  \t# mixed note", "\t", "  \t ", "    " * ind + "\t# deep tab note", "   "]))
+            self.features.add("gap")
+            self.features.add("tab-line")
 
     def statement(self, kind, depth, ind):
         self.maybe_gap(ind)
@@ -775,7 +780,9 @@ class Gen:
         elif r < 0.78:
             self.emit(ind, f"{n} = (\n{'    ' * ind}    {v}\n{'    ' * ind})")
         elif r < 0.8:
-            self.emit(ind, self.rng.choice([f"{n} = (\n{v}\n)", f"{n} = [\n  {v},\n{v}]", f'{n} = """a {v}\nflush\n"""']))   # continuation at low columns
+            self.emit(ind, self.rng.choice([f"{n} = (\n{v}\n)", f"{n} = [\n  {v},\n{v}]", f'{n} = """a {v}\nflush\n"""',
+                                            f"{n} = (\n\t{v}\n)", f"{n} = [\n  \t{v},\n\t\t{v}]", f'{n} = """a {v}\n\ttabbed\n  \t\n"""',
+                                            f"{n} = (\n{'    ' * ind}\t{v}\n{'    ' * ind}\t)"]))   # continuation at low columns / with tabs
             self.features.add("less-indented-line")
         elif self.exe:
             self.emit(ind, f"{n} = {v}")
@@ -1165,8 +1172,9 @@ def is_accessor_def(s):
     return any(deco_text(d).endswith((".setter", ".deleter")) for d in s.decorator_list)
 
 
-def supported_bindings(body, class_level=False, path="m", mname="m", is_init=False):
-    """name -> list of dict(kind, lineno, direct, cond, overload, accessor) for the binding forms Griffe supports."""
+def supported_bindings(body, class_level=False, path="m", mname="m", is_init=False, function_level=False):
+    """name -> list of dict(kind, lineno, direct, cond, overload, accessor) for the binding forms Griffe supports
+    (function_level: the own members of an __init__ function object -- definitions, classes, imports; no assignments)."""
     out: dict[str, list] = {}
 
     def add(name, **kw):
@@ -1187,6 +1195,8 @@ def supported_bindings(body, class_level=False, path="m", mname="m", is_init=Fal
         elif isinstance(s, ast.ClassDef):
             add(s.name, kind="class", lineno=s.lineno, direct=direct, cond=False, overload=False, accessor=False, amb=amb_def(s))
         elif isinstance(s, (ast.Assign, ast.AnnAssign)):
+            if function_level:
+                continue
             targets = s.targets if isinstance(s, ast.Assign) else [s.target]
             simple = all(isinstance(x, (ast.Name, ast.Attribute)) and (isinstance(x, ast.Name) or Abstraction("m", False).dotted(x)) for x in targets)
             if not simple:
@@ -1323,8 +1333,8 @@ def walk_objects(mod):
     def rec(o, path):
         for name, m in o.members.items():
             yield path + (name,), m, o
-            if not m.is_alias and m.kind.value == "class":
-                yield from rec(m, path + (name,))
+            if not m.is_alias and (m.kind.value == "class" or (m.kind.value == "function" and m.members)):
+                yield from rec(m, path + (name,))       # also what an __init__ function object holds
     yield from rec(mod, ())
 
 
@@ -1494,8 +1504,16 @@ def direct_checks(case, tree, mod, rec):
             node = origin(obj)
             if isinstance(node, ast.ClassDef):
                 levels.append((path, obj, node.body, True))
+        # the function object of a class's __init__: its members are the definitions, classes and imports of its body
+        if not obj.is_alias and obj.kind.value == "function" and obj.name == "__init__" and parent.kind.value == "class":
+            node = origin(obj)
+            if isinstance(node, (ast.FunctionDef, ast.AsyncFunctionDef)):
+                levels.append((path, obj, node.body, "function"))
+        elif not obj.is_alias and obj.kind.value == "function" and obj.members:
+            fails.append(("names-extra", f"{'.'.join(path)}: a function that is not a class's __init__ has members {list(obj.members)}", None))
     for path, obj, body, is_cls in levels:
-        sup = supported_bindings(body, class_level=is_cls, path=".".join((case["mname"],) + path), mname=case["mname"], is_init=case["is_init"])
+        sup = supported_bindings(body, class_level=is_cls is True, function_level=is_cls == "function",
+                                 path=".".join((case["mname"],) + path), mname=case["mname"], is_init=case["is_init"])
         where = ".".join(path) or "<module>"
         eimp = expected_imports(body, case["mname"], case["is_init"])
         if dict(obj.imports) != eimp:
@@ -2750,6 +2768,8 @@ def check_structural(ctx, cases, label):
         ctx.count("object_sources_compared")
         if out and out[0][:1] == " ":
             ctx.observe("branch", "source-keeps-indentation (a less indented line in the span)")
+        if any("\t" in l[:len(l) - len(l.lstrip())] for l in ls):
+            ctx.observe("branch", "source-with-tab-indented-line")
         if "\n".join(out) != src_:
             ctx.tie_failure("correspondence", "dedent (Model/C01_layout.v) of Object.lines vs Object.source", {"path": path_, "model": out[:6], "impl": src_.split("\n")[:6]}, small_)
     # the recorded traces through the extracted bracket checker (the definition theorem C01_events_well_bracketed is about)
